@@ -19,7 +19,7 @@ ImplInit ==
        /\ stage = 0
        /\ nalloc = a.nalloc /\ nodes = a.nodes /\ H = a.H /\ E = a.E /\ armed = a.armed
        /\ EB = [x \in DOMAIN a.P |->
-                  [kind |-> a.P[x].kind, k |-> a.P[x].k, v |-> a.P[x].v, h |-> a.P[x].h, data |-> TRUE,
+                  [kind |-> a.P[x].kind, k |-> a.P[x].k, v |-> a.P[x].v, h |-> a.P[x].h, hr |-> a.P[x].hr, data |-> TRUE,
                    rc |-> IF a.P[x].held THEN 1 ELSE 0, intab |-> a.P[x].kind = "ent" /\ a.P[x].held, alive |-> TRUE]]
        /\ MB = IF s.mh = NoMap THEN <<>>
                ELSE <<[h |-> s.mh, rc |-> 1, box |-> TRUE, wmb |-> TRUE, wkrc |-> 1, wkdata |-> TRUE, wkalive |-> TRUE]>>
@@ -34,4 +34,5 @@ ImplNext ==
 ImplShapesSpec == ImplInit /\ [][ImplNext]_isvars
 
 RefStep == [][Ref!Next]_(Ref!vars)
+ShortcutOn == TRUE      \* for MCGcImplShapes_shortcut.cfg (RescanShortcut <- ShortcutOn): expected to fail
 =============================================================================
